@@ -266,6 +266,83 @@ func (c *Ctx) ifPos(iff *ssa.If, f *ir.Func) string {
 	return c.fnPos(f)
 }
 
+// guardDisjuncts returns the facts known at block b as a disjunction of conjunctions. A dominating branch on a
+// boolean join (the lowering of `x := a || b; if x`) is expanded over the join's incoming edges: a constant-true edge
+// contributes the facts of its predecessor, a constant-false edge nothing, any other edge the edge value itself
+// together with the facts of its predecessor.
+func guardDisjuncts(f *ir.Func, b *ssa.BasicBlock, depth int) [][]Cond {
+	base := []Cond{}
+	var phis []ir.Guard
+	for _, g := range f.GuardsAt(b) {
+		if phi, ok := g.Cond.(*ssa.Phi); ok && depth < 3 {
+			_ = phi
+			phis = append(phis, g)
+			continue
+		}
+		base = append(base, Normalize(f.Term(g.Cond), g.Polarity))
+	}
+	out := [][]Cond{base}
+	for _, g := range phis {
+		phi := g.Cond.(*ssa.Phi)
+		var alts [][]Cond
+		for i, e := range phi.Edges {
+			pred := phi.Block().Preds[i]
+			// the fact established by taking the edge pred -> phi block
+			var edgeFact []Cond
+			if iff, ok := pred.Instrs[len(pred.Instrs)-1].(*ssa.If); ok && pred.Succs[0] != pred.Succs[1] {
+				if pred.Succs[0] == phi.Block() {
+					edgeFact = append(edgeFact, Normalize(f.Term(iff.Cond), true))
+				} else if pred.Succs[1] == phi.Block() {
+					edgeFact = append(edgeFact, Normalize(f.Term(iff.Cond), false))
+				}
+			}
+			if k, ok := e.(*ssa.Const); ok && k.Value != nil {
+				val := k.Value.String() == "true"
+				if val != g.Polarity {
+					continue // infeasible
+				}
+				for _, d := range guardDisjuncts(f, pred, depth+1) {
+					alts = append(alts, append(append([]Cond{}, d...), edgeFact...))
+				}
+				continue
+			}
+			for _, d := range guardDisjuncts(f, pred, depth+1) {
+				alts = append(alts, append(append(append([]Cond{}, d...), edgeFact...), Normalize(f.Term(e), g.Polarity)))
+			}
+		}
+		var next [][]Cond
+		for _, o := range out {
+			for _, a := range alts {
+				next = append(next, append(append([]Cond{}, o...), a...))
+			}
+		}
+		if len(next) > 0 && len(next) <= 32 {
+			out = next
+		}
+	}
+	return out
+}
+
+// condHolds: in every disjunct of the facts at b some fact matches one of the alternatives of cond.
+func condHolds(f *ir.Func, b *ssa.BasicBlock, cond string) (bool, string) {
+	var seen []string
+	for _, d := range guardDisjuncts(f, b, 0) {
+		found := false
+		var ds []string
+		for _, cd := range d {
+			ds = append(ds, cd.String())
+			if matchCondAny(cond, cd) {
+				found = true
+			}
+		}
+		seen = append(seen, "["+strings.Join(ds, " ∧ ")+"]")
+		if !found {
+			return false, strings.Join(seen, " ∨ ")
+		}
+	}
+	return true, strings.Join(seen, " ∨ ")
+}
+
 // OnlyWhen: every call to callee in fn happens under condition cond (a dominating branch edge).
 func (c *Ctx) OnlyWhen(fnSpec, callee, cond, desc string) {
 	role := "onlywhen/" + callee + "/" + cond
@@ -280,17 +357,9 @@ func (c *Ctx) OnlyWhen(fnSpec, callee, cond, desc string) {
 		return
 	}
 	for _, call := range calls {
-		found := false
-		var seen []string
-		for _, g := range f.GuardsAt(call.Block()) {
-			cd := Normalize(f.Term(g.Cond), g.Polarity)
-			seen = append(seen, cd.String())
-			if matchCondAny(cond, cd) {
-				found = true
-			}
-		}
+		found, seen := condHolds(f, call.Block(), cond)
 		if !found {
-			c.add("G", fnSpec, role, desc, report.Violated, "call not under the condition; conditions in force: "+short(strings.Join(seen, " ; ")), c.posOf(call))
+			c.add("G", fnSpec, role, desc, report.Violated, "call not under the condition; conditions in force: "+short(seen), c.posOf(call))
 			return
 		}
 	}
@@ -512,4 +581,178 @@ func (c *Ctx) ReturnCase(fnSpec string, idx int, cond, pattern string, only bool
 		return
 	}
 	c.add("P", fnSpec, role, desc, report.OK, fmt.Sprintf("%d path(s)", n), c.fnPos(f))
+}
+
+// WhenReturn: fn has at least one return under condition cond, and every such return yields, at result idx, a value
+// matching pattern.
+func (c *Ctx) WhenReturn(fnSpec, cond string, idx int, pattern, desc string) {
+	role := fmt.Sprintf("whenreturn%d/%s", idx, cond)
+	cond, pattern = c.X(cond), c.X(pattern)
+	f := c.Fn(fnSpec)
+	if f == nil {
+		return
+	}
+	n := 0
+	for _, b := range f.Fn.Blocks {
+		ret, ok := b.Instrs[len(b.Instrs)-1].(*ssa.Return)
+		if !ok || idx >= len(ret.Results) {
+			continue
+		}
+		if ok, _ := condHolds(f, b, cond); !ok {
+			continue
+		}
+		n++
+		if !ir.MatchAny(pattern, f.Term(ret.Results[idx])) {
+			c.add("P", fnSpec, role, desc, report.Violated, fmt.Sprintf("under %s result %d is %s, want %s", cond, idx, short(f.Term(ret.Results[idx]).String()), pattern), c.posOf(ret))
+			return
+		}
+	}
+	if n == 0 {
+		c.add("P", fnSpec, role, desc, report.Violated, "no return under "+cond, c.fnPos(f))
+		return
+	}
+	c.add("P", fnSpec, role, desc, report.OK, fmt.Sprintf("%d return(s)", n), c.fnPos(f))
+}
+
+// PanicsWhen: fn panics with a value matching valPat exactly under condition cond: a panic instruction under cond
+// exists, and no panic instruction with that value lies outside cond.
+func (c *Ctx) PanicsWhen(fnSpec, cond, valPat, desc string) {
+	role := "panicswhen/" + cond
+	cond, valPat = c.X(cond), c.X(valPat)
+	f := c.Fn(fnSpec)
+	if f == nil {
+		return
+	}
+	n := 0
+	for _, b := range f.Fn.Blocks {
+		pn, ok := b.Instrs[len(b.Instrs)-1].(*ssa.Panic)
+		if !ok || !ir.MatchAny(valPat, f.Term(pn.X)) {
+			continue
+		}
+		if ok, seen := condHolds(f, b, cond); !ok {
+			c.add("G", fnSpec, role, desc, report.Violated, "panic outside the condition; in force: "+short(seen), c.posOf(pn))
+			return
+		}
+		n++
+	}
+	if n == 0 {
+		c.add("G", fnSpec, role, desc, report.Violated, "no panic("+valPat+") under "+cond, c.fnPos(f))
+		return
+	}
+	c.add("G", fnSpec, role, desc, report.OK, fmt.Sprintf("%d panic site(s)", n), c.fnPos(f))
+}
+
+// StoreVarWhen: fn stores a value matching pattern into the variable (captured or local) named v, under cond, and
+// every store to v matching pattern lies under cond.
+func (c *Ctx) StoreVarWhen(fnSpec, v, pattern, cond, desc string) {
+	role := "storevar/" + v + "/" + cond
+	cond, pattern = c.X(cond), c.X(pattern)
+	f := c.Fn(fnSpec)
+	if f == nil {
+		return
+	}
+	n := 0
+	for _, b := range f.Fn.Blocks {
+		for _, ins := range b.Instrs {
+			st, ok := ins.(*ssa.Store)
+			if !ok {
+				continue
+			}
+			name := ""
+			switch a := st.Addr.(type) {
+			case *ssa.FreeVar:
+				name = a.Name()
+			case *ssa.Alloc:
+				name = a.Comment
+			}
+			if name != v || !ir.MatchAny(pattern, f.Term(st.Val)) {
+				continue
+			}
+			if ok, seen := condHolds(f, b, cond); !ok {
+				c.add("G", fnSpec, role, desc, report.Violated, "store outside the condition; in force: "+short(seen), c.posOf(st))
+				return
+			}
+			n++
+		}
+	}
+	if n == 0 {
+		c.add("G", fnSpec, role, desc, report.Violated, "no store "+v+" := "+pattern, c.fnPos(f))
+		return
+	}
+	c.add("G", fnSpec, role, desc, report.OK, fmt.Sprintf("%d store(s)", n), c.fnPos(f))
+}
+
+// HasDefer: fn defers a call to the named function before any other call.
+func (c *Ctx) HasDefer(fnSpec, callee, desc string) {
+	f := c.Fn(fnSpec)
+	if f == nil {
+		return
+	}
+	for _, call := range f.Calls() {
+		if d, ok := call.(*ssa.Defer); ok {
+			name := f.CalleeName(d)
+			if mc, ok := d.Call.Value.(*ssa.MakeClosure); ok {
+				if fn, ok := mc.Fn.(*ssa.Function); ok {
+					name = ir.FuncName(fn)
+				}
+			}
+			if name == callee {
+				if d.Block() == f.Fn.Blocks[0] {
+					c.add("O", fnSpec, "defer/"+callee, desc, report.OK, "deferred in the entry block", c.posOf(d))
+					return
+				}
+				c.add("O", fnSpec, "defer/"+callee, desc, report.Violated, "deferred conditionally", c.posOf(d))
+				return
+			}
+		}
+	}
+	c.add("O", fnSpec, "defer/"+callee, desc, report.Violated, "no defer of "+callee, c.fnPos(f))
+}
+
+// NoPanicOrErrorExit: fn has no panic instruction and no error result.
+func (c *Ctx) NoPanicOrErrorExit(fnSpec, desc string) {
+	f := c.Fn(fnSpec)
+	if f == nil {
+		return
+	}
+	for _, b := range f.Fn.Blocks {
+		if pn, ok := b.Instrs[len(b.Instrs)-1].(*ssa.Panic); ok {
+			c.add("G", fnSpec, "nopanic", desc, report.Violated, "explicit panic", c.posOf(pn))
+			return
+		}
+	}
+	res := f.Fn.Signature.Results()
+	for i := 0; i < res.Len(); i++ {
+		if types.Identical(res.At(i).Type(), types.Universe.Lookup("error").Type()) {
+			c.add("G", fnSpec, "nopanic", desc, report.Violated, "returns an error", c.fnPos(f))
+			return
+		}
+	}
+	c.add("G", fnSpec, "nopanic", desc, report.OK, "no panic, no error result", c.fnPos(f))
+}
+
+// StoreVarUnder: every store of a value matching pattern to field `field` lies under cond (at least one exists).
+func (c *Ctx) StoreVarUnder(fnSpec, field, pattern, cond, desc string) {
+	role := "storeunder/" + field + "/" + cond
+	cond, pattern = c.X(cond), c.X(pattern)
+	f := c.Fn(fnSpec)
+	if f == nil {
+		return
+	}
+	n := 0
+	for _, st := range FieldStores(f, field) {
+		if !ir.MatchAny(pattern, f.Term(st.Val)) {
+			continue
+		}
+		n++
+		if ok, seen := condHolds(f, st.Block(), cond); !ok {
+			c.add("G", fnSpec, role, desc, report.Violated, "store outside the condition; in force: "+short(seen), c.posOf(st))
+			return
+		}
+	}
+	if n == 0 {
+		c.add("G", fnSpec, role, desc, report.Violated, "no store "+field+" := "+pattern, c.fnPos(f))
+		return
+	}
+	c.add("G", fnSpec, role, desc, report.OK, fmt.Sprintf("%d store(s)", n), c.fnPos(f))
 }
